@@ -4,14 +4,23 @@
              of the period (linear forms modulo the period, with the path facts on `elapsed`),
              now < window_end <= now + 2*period, and the hand-aligned first timer tick coincides
              with window_end.
-  C07.STEP   _window_end has exactly two writers; in the resampling loop it advances by exactly one
-             period exactly once per tick, before any raise/break of that tick; the timer never
-             skips missed ticks.
+  C07.STEP   _window_end has exactly two writers: the constructor and the one `+= period` inside the tick loop of
+             resample().  Any other (re)binding - in another method (tuple target, setattr, __dict__ included), in
+             resample() outside its tick loop, or from another class - re-bases the timeline while the timer keeps the
+             phase and backlog it got at construction.  In the resampling loop it advances by exactly one period
+             exactly once per tick, before any raise/break of that tick, and never inside a loop nested in the tick
+             (per series / per batch: the series of one tick would get different timestamps and one tick would move
+             the timeline by several periods); the timer never skips missed ticks.
   C07.SAME   every series of a tick is resampled with the same self._window_end and emits a sample
              carrying that timestamp unchanged.  The per-tick sweep is one gather over all helpers
              (return_exceptions=True) or its sequential spelling: a loop over all of self._resamplers whose
              every iteration awaits `<helper>.resample(self._window_end)` inside `try/except Exception` and
              that no path leaves early (break / return / raise => C07.STEP: the later series miss the tick).
+             A batched sweep (bounded concurrency) is read likewise: the batches are the slices [i:i+n] for
+             i in range(0, len(S), n) of ONE snapshot S = list(self._resamplers.values()) taken in the tick
+             (itertools.batched(S, n), an eager list of those slices, or `while work: batch, work = work[:n], work[n:]`),
+             n a positive integer constant; every iteration gathers exactly its batch with self._window_end and
+             return_exceptions=True, and no path leaves the loop.
   C07.ONE    the shared resampler's resample() loop is started only from the actor's supervising loop,
              only when the previous task is absent or finished, and the task variable is only reset
              when the task is known finished (two loops on one resampler repeat/skip timestamps).  The
@@ -262,11 +271,24 @@ def _timer_loops(node: ast.AST) -> list[Any]:
     return out
 
 
+def _is_gather(n: ast.AST) -> bool:
+    return isinstance(n, ast.Call) and u(n.func) in ("asyncio.gather", "gather")
+
+
+def _batch_loop(e: Any) -> Any:
+    """A loop of the tick that resamples the series batch by batch: its body gathers (`asyncio.gather`) instead of
+    awaiting one series.  The batched spelling of the per-tick gather (bounded concurrency)."""
+    s = getattr(e, "orig", None)
+    if getattr(e, "kind", "") != "loop" or not isinstance(s, (ast.For, ast.AsyncFor, ast.While)):
+        return None
+    return s if any(_is_gather(n) for n in ast.walk(s)) else None
+
+
 def _series_loop(e: Any) -> Any:
     """A `for` statement of the tick that hands the tick to series one by one (its body calls some
     `<x>.resample(...)`): the sequential spelling of the per-tick gather."""
     s = getattr(e, "orig", None)
-    if getattr(e, "kind", "") != "loop" or not isinstance(s, (ast.For, ast.AsyncFor)):
+    if getattr(e, "kind", "") != "loop" or not isinstance(s, (ast.For, ast.AsyncFor)) or _batch_loop(e) is not None:
         return None
     for n in ast.walk(s):
         if isinstance(n, ast.Call) and isinstance(n.func, ast.Attribute) and n.func.attr == "resample":
@@ -275,12 +297,14 @@ def _series_loop(e: Any) -> Any:
 
 
 def _sweeps(p: Any) -> list[tuple[int, str, Any]]:
-    """(position in the effect log, 'gather' | 'loop', effect) for every construct of a tick path that
+    """(position in the effect log, 'gather' | 'loop' | 'batches', effect) for every construct of a tick path that
     resamples the registered series."""
     out: list[tuple[int, str, Any]] = []
     for i, e in enumerate(p.effects):
         if e.kind == "call" and u(e.node.func) == "asyncio.gather":
             out.append((i, "gather", e))
+        elif _batch_loop(e) is not None:
+            out.append((i, "batches", e))
         elif _series_loop(e) is not None:
             out.append((i, "loop", e))
     return out
@@ -358,6 +382,44 @@ def _check_series_loop(run: Run, fn: Any, eff: Any) -> None:
 
 
 
+_SETATTRS = ("setattr", "delattr", "object.__setattr__", "object.__delattr__")
+
+
+def _window_end_writes(root: ast.AST) -> list[tuple[ast.AST, str]]:
+    """Every construct under `root` that (re)binds an attribute called `_window_end` - whatever the statement
+    form: plain / augmented / annotated assignment, an element of a tuple target (`x._window_end, _ = ...`), a
+    `for` / `with ... as` target, `del`, `setattr(x, "_window_end", ...)`, `x.__dict__["_window_end"] = ...` -
+    also inside nested functions and lambdas.  (node, text of the written place)."""
+    from ..engine.resolver import parent_map
+
+    out: list[tuple[ast.AST, str]] = []
+    pm = parent_map(root)
+
+    def stmt_of(n: ast.AST) -> str:
+        """`<written place>  in  <head of the statement that writes it>`"""
+        s: ast.AST | None = n
+        while s is not None and not isinstance(s, ast.stmt):
+            s = pm.get(s)
+        if s is None or isinstance(s, (ast.FunctionDef, ast.AsyncFunctionDef, ast.ClassDef)):
+            return u(n)
+        return f"{u(n)}  in  `{ast.unparse(s).splitlines()[0][:110]}`"
+
+    for n in ast.walk(root):
+        if isinstance(n, ast.Attribute) and n.attr == "_window_end" and isinstance(n.ctx, (ast.Store, ast.Del)):
+            out.append((n, stmt_of(n)))
+        elif isinstance(n, ast.Call) and u(n.func) in _SETATTRS and any(
+                isinstance(a, ast.Constant) and a.value == "_window_end" for a in n.args[:3]):
+            out.append((n, u(n)[:100]))
+        elif isinstance(n, ast.Subscript) and isinstance(n.ctx, (ast.Store, ast.Del)) \
+                and isinstance(n.slice, ast.Constant) and n.slice.value == "_window_end":
+            out.append((n, u(n)))
+        elif isinstance(n, ast.Call) and isinstance(n.func, ast.Attribute) and n.func.attr in ("update", "__setitem__") \
+                and ("__dict__" in u(n.func.value) or u(n.func.value).startswith("vars(")) \
+                and "_window_end" in u(n):
+            out.append((n, u(n)[:100]))
+    return out
+
+
 def check_step(run: Run, prog: Program) -> None:
     cls = prog.cls(RES)
     fn = prog.func(f"{RES}.resample")
@@ -371,30 +433,85 @@ def check_step(run: Run, prog: Program) -> None:
             if h in cls.methods else []
         if others:
             absorbed.discard(h)
+    # helpers read into the constructor count as part of it, again only if nobody else can run them
+    init = prog.func(f"{RES}.__init__")
+    ctor_parts = set(getattr(inline_helpers(prog, init), "_spliced", ()))
+    for h in sorted(ctor_parts):
+        if h not in cls.methods or [c for c, _ in prog.callers(f"{RES}.{h}")
+                                    if c.qual != init.qual and c.name not in ctor_parts]:
+            ctor_parts.discard(h)
     writers = []
     for m in cls.methods.values():
-        for s in body_walk(m.node):
-            if isinstance(s, (ast.Assign, ast.AugAssign, ast.AnnAssign)):
-                tg = s.targets[0] if isinstance(s, ast.Assign) else s.target
-                if u(tg) == "self._window_end":
-                    writers.append(m.name)
-    extra = sorted(set(writers) - {"__init__", "resample"} - absorbed)
-    run.check(not extra and "__init__" in writers, "C07.STEP", cls.qual, "writers of _window_end: constructor and the per-tick advance",
-              f"self._window_end is written somewhere else than the constructor and the per-tick advance ({extra})",
-              node=cls.node, file=cls.module.rel)
+        for w, text in _window_end_writes(m.node):
+            writers.append(m.name)
+            if m.name in ("__init__", "resample") or m.name in absorbed or m.name in ctor_parts:
+                continue
+            run.violation(
+                "C07.STEP", m.qual, text,
+                f"`_window_end` gets a second writer in {m.name}() - besides the constructor (which aligns the window "
+                "end and the timer's first tick together) and the one `+= period` of each tick.  The timer keeps the "
+                "phase and the backlog of ticks it was given at construction (TriggerAllMissed delivers one tick per "
+                "period since then), so a window end that is re-derived, reset or shifted anywhere else no longer "
+                "matches the ticks: the first timestamp can lie later than creation + 2 periods, a burst of pending "
+                "ticks is stamped with window ends in the future, or timestamps repeat / are skipped.  Excluded alike: "
+                "re-running _calculate_window_end() when a series is added or removed, a re-sync before the tick loop "
+                "of resample(), a reset in stop(), a write through a tuple target / setattr / __dict__, and a write "
+                "from another class", node=w, file=m.file)
+    run.check("__init__" in writers, "C07.STEP", cls.qual, "writers of _window_end: constructor and the per-tick advance",
+              "the constructor does not set self._window_end", node=cls.node, file=cls.module.rel,
+              instance=f"{cls.qual}: _window_end written only by the constructor and the per-tick advance "
+                       f"(writers: {sorted(set(writers))})")
+    # the attribute is private to the Resampler: nobody outside the class re-bases the timeline either
+    for g in prog.all_functions():
+        if "_window_end" not in g.module.source or (g.cls is not None and g.cls.qual == cls.qual):
+            continue
+        sub = g.cls is not None and any(b.split(".")[-1].split("[")[0] == cls.name for b in g.cls.base_exprs)
+        for w, text in _window_end_writes(g.node):
+            if isinstance(w, ast.Attribute) and u(w.value) == "self" and not sub:
+                continue    # another class's own attribute of that name
+            run.violation("C07.STEP", g.qual, text,
+                          f"the Resampler's `_window_end` is written from outside the class, in {g.qual}: a second writer "
+                          "besides the constructor and the per-tick `+= period`; the timer aligned at construction is not "
+                          "re-aligned with it, so ticks and window ends no longer match (timestamps off the "
+                          "creation-anchored timeline, repeated or skipped)", node=w, file=g.file)
     loops = _timer_loops(node)
     if len(loops) != 1:
         raise AnalysisError(f"{fn.qual}: timer loop not found")
+    # inside resample() itself the only write is the advance of a tick: nothing re-bases the window end before or
+    # after the tick loop (a `resample()` that is called again after a ResamplingError must continue the timeline)
+    in_loop = {id(w) for w, _t in _window_end_writes(loops[0])}
+    for w, text in _window_end_writes(node):
+        run.check(id(w) in in_loop, "C07.STEP", fn.qual, text,
+                  "resample() writes `_window_end` outside its tick loop: the window end is re-based when the loop is "
+                  "(re)started while the timer keeps the phase and the pending ticks it got at construction - after a "
+                  "ResamplingError the next call would repeat or skip timestamps, and a late first call would start "
+                  "later than creation + 2 periods", node=w, file=fn.file,
+                  instance=f"{fn.qual}: `_window_end` written only inside the tick loop")
     # loops are opaque to the path walker: an advance hidden in a loop nested in the tick is not "once per tick"
+    any_hidden = False
     for inner in body_walk(loops[0]):
         if inner is loops[0] or not isinstance(inner, (ast.For, ast.AsyncFor, ast.While)):
             continue
-        hidden = [s for s in body_walk(inner) if isinstance(s, (ast.Assign, ast.AugAssign, ast.AnnAssign))
-                  and u(s.targets[0] if isinstance(s, ast.Assign) else s.target) == "self._window_end"]
-        run.check(not hidden, "C07.STEP", fn.qual, f"no advance inside the loop at line {inner.lineno} of the tick",
-                  "the window end is written inside a loop nested in the tick: it advances once per iteration "
-                  "(per series) instead of exactly once per tick", node=inner, file=fn.file,
-                  instance=f"{fn.qual}: no advance hidden in a nested loop")
+        hidden = [w for st in inner.body + inner.orelse for w, _t in _window_end_writes(st)]
+        any_hidden = any_hidden or bool(hidden)
+        head = (f"for {u(inner.target)} in {u(inner.iter)}" if not isinstance(inner, ast.While) else f"while {u(inner.test)}")[:110]
+        what = ("the loop that resamples the series batch by batch" if any(_is_gather(n) for n in ast.walk(inner))
+                else "the loop that resamples the series one by one" if any(
+                    isinstance(n, ast.Call) and isinstance(n.func, ast.Attribute) and n.func.attr == "resample"
+                    for n in ast.walk(inner)) else "a loop nested in the tick")
+        run.check(not hidden, "C07.STEP", fn.qual, f"`{head}:` ... {u(hidden[0]) if hidden else ''} (no advance inside a loop of the tick)",
+                  f"the window end is advanced inside {what} (`{head}`, line {inner.lineno}): it moves once per "
+                  "iteration - per batch / per series - instead of exactly once per tick.  As soon as the loop runs more "
+                  "than once in a tick (more series than one batch holds) the later batches / series of the SAME tick "
+                  "are handed a window end that is one, two, ... periods ahead of the first one, so series resampled "
+                  "together get different timestamps, and one timer tick moves the timeline by several periods: grid "
+                  "points are skipped and the timestamps run away into the future.  With zero iterations the tick is "
+                  "consumed without any advance.  (Excluded alike: an advance in a per-series `for`, in a `while` "
+                  "draining a work list, or in a retry loop of the tick; the advance belongs after the whole sweep, "
+                  "once.)", node=hidden[0] if hidden else inner, file=fn.file,
+                  instance=f"{fn.qual}: no advance hidden in a nested loop (line {inner.lineno})")
+    if any_hidden:
+        return      # where the advance sits is reported; counting advances per tick path has no meaning then
     te = TermEval()
     n_adv = 0
     for p, st in sym_block(loops[0].body, env=_pre_loop_env(node, loops[0])):
@@ -422,7 +539,7 @@ def check_step(run: Run, prog: Program) -> None:
         run.check(ok, "C07.STEP", fn.qual, "self._window_end += self._config.resampling_period",
                   "the window end does not advance by exactly one resampling period per tick (the timer "
                   f"still fires once per period, so timestamps would skip or repeat); found {u(val)[:100]}", **where)
-    if not n_adv:
+    if not n_adv and not any(v.rule == "C07.STEP" and v.function == fn.qual for v in run.violations):
         raise AnalysisError(f"{fn.qual}: no tick path advances the window end")
 
 
@@ -776,23 +893,225 @@ def check_once(run: Run, prog: Program) -> None:  # noqa: C901
 
 
 
-def _gather_ok(g: ast.Call) -> bool:
+def _gather_domain(g: ast.Call) -> tuple[ast.AST, str] | None:
+    """(iterable, 'values' | 'items') when `g` is `gather(*[<x>.resample(self._window_end) for <x> in iterable], ...)`
+    (`for _, <x> in iterable` is the 'items' form): every element of the iterable is handed the window end once."""
     if not (g.args and isinstance(g.args[0], ast.Starred) and isinstance(g.args[0].value, (ast.ListComp, ast.GeneratorExp))):
-        return False
+        return None
+    if any(not isinstance(a, ast.Starred) for a in g.args[1:]) and len(g.args) > 1:
+        return None
     comp = g.args[0].value
     if len(comp.generators) != 1 or comp.generators[0].ifs or comp.generators[0].is_async:
-        return False
+        return None
     gen = comp.generators[0]
-    if u(gen.iter) == "self._resamplers.values()" and isinstance(gen.target, ast.Name):
-        recv = gen.target.id
-    elif u(gen.iter) == "self._resamplers.items()" and isinstance(gen.target, ast.Tuple) and len(gen.target.elts) == 2 \
-            and isinstance(gen.target.elts[1], ast.Name):
-        recv = gen.target.elts[1].id
+    if isinstance(gen.target, ast.Name):
+        recv, kind = gen.target.id, "values"
+    elif isinstance(gen.target, ast.Tuple) and len(gen.target.elts) == 2 and isinstance(gen.target.elts[1], ast.Name):
+        recv, kind = gen.target.elts[1].id, "items"
     else:
-        return False
-    return isinstance(comp.elt, ast.Call) and method_call(comp.elt, recv, "resample") \
+        return None
+    ok = isinstance(comp.elt, ast.Call) and method_call(comp.elt, recv, "resample") \
         and u(positional(comp.elt, ["timestamp"]).get("timestamp")) == "self._window_end" \
         and len(comp.elt.args) + len(comp.elt.keywords) == 1
+    return (gen.iter, kind) if ok else None
+
+
+def _gather_ok(g: ast.Call) -> bool:
+    d = _gather_domain(g)
+    return d is not None and len(g.args) == 1 and u(d[0]) == f"self._resamplers.{d[1]}()"
+
+
+# ------------------------------------------------------------------------------ the batched sweep of a tick
+def _snapshot_kind(v: ast.AST | None) -> str | None:
+    """'values' | 'items' when `v` is a snapshot (list / tuple) of ALL registered series."""
+    if isinstance(v, ast.Call) and u(v.func) in ("list", "tuple") and len(v.args) == 1 and not v.keywords:
+        return _ALL_SERIES.get(u(v.args[0]))
+    return None
+
+
+def _positive_int(fn: Any, e: ast.AST | None) -> bool:
+    """`e` is a positive integer constant: a literal, or a module-level NAME bound to one."""
+    for _ in range(3):
+        if isinstance(e, ast.Name) and e.id in fn.module.assigns:
+            e = fn.module.assigns[e.id]
+    return isinstance(e, ast.Constant) and type(e.value) is int and e.value > 0
+
+
+def _range_over(it: ast.AST, snap: str) -> tuple[str, str] | None:
+    """(start, step) texts when `it` is `range(<0>, len(snap) | max(len(snap), 1), step)`: the multiples of `step`
+    below the length of the snapshot."""
+    if not (isinstance(it, ast.Call) and u(it.func) == "range" and len(it.args) == 3 and not it.keywords):
+        return None
+    lo, hi, step = it.args
+    n = f"len({snap})"
+    if u(lo) == "0" and u(hi) in (n, f"max({n}, 1)", f"max(1, {n})"):
+        return "0", u(step)
+    return None
+
+
+def _slice_texts(snap: str, i: str, n: str) -> set[str]:
+    return {f"{snap}[{i}:{i} + {n}]", f"{snap}[{i}:{n} + {i}]", f"{snap}[{i}:min({i} + {n}, len({snap}))]",
+            f"{snap}[{i}:min(len({snap}), {i} + {n})]", f"{snap}[slice({i}, {i} + {n})]"}
+
+
+def _check_batch_loop(run: Run, fn: Any, eff: Any, entry_env: dict[str, ast.AST]) -> None:  # noqa: C901
+    """The batched form of the per-tick sweep (bounded concurrency) must be as total as the one gather it
+    replaces: the batches partition ONE snapshot of all registered series taken in the tick, every iteration gathers
+    exactly its batch with `self._window_end` (return_exceptions=True), and no path of the body leaves the loop or
+    writes `_window_end` (the advance comes once, after the last batch: decided by C07.STEP on the tick paths)."""
+    from ..engine.sympath import _Subst
+    import copy as _copy
+
+    loop = _batch_loop(eff)
+    is_for = isinstance(loop, (ast.For, ast.AsyncFor))
+    head = (f"for {u(loop.target)} in {u(loop.iter)}" if is_for else f"while {u(loop.test)}")[:110]
+    stored = {n.id for n in ast.walk(loop) if isinstance(n, ast.Name) and isinstance(n.ctx, (ast.Store, ast.Del))}
+    mutated = {n.func.value.id for n in ast.walk(loop) if isinstance(n, ast.Call) and isinstance(n.func, ast.Attribute)
+               and isinstance(n.func.value, ast.Name)}
+    # snapshots of all series taken in the tick before the loop keep a symbolic name; everything the loop itself
+    # binds has no pre-loop value inside the body
+    env: dict[str, ast.AST] = {}
+    kinds: dict[str, str] = {}
+    for k, v in entry_env.items():
+        sk = _snapshot_kind(v)
+        if sk is not None and k not in mutated and (k not in stored or not is_for):
+            env[k] = ast.Name(id=f"ALL[{k}]", ctx=ast.Load())
+            kinds[f"ALL[{k}]"] = sk
+        elif k not in stored:
+            env[k] = v
+    where0 = dict(node=loop, file=fn.file)
+    inst = f"{fn.qual}: batched sweep (line {loop.lineno})"
+
+    def sub(e: ast.AST) -> ast.AST:
+        return _Subst(env).visit(_copy.deepcopy(e))
+
+    expect: set[str] = set()      # texts the gather of an iteration may range over
+    size: ast.AST | None = None
+    snap = ""
+    why = ""
+    if is_for and isinstance(loop.target, ast.Name):
+        T = loop.target.id
+        it = sub(loop.iter)
+        chunk_src: ast.AST | None = None
+        if isinstance(it, ast.Call) and u(it.func) in ("itertools.batched", "batched") and len(it.args) == 2 and not it.keywords:
+            chunk_src, size = it.args
+            if isinstance(chunk_src, ast.Name) and chunk_src.id in kinds:
+                snap, expect = chunk_src.id, {T}
+            elif _snapshot_kind(chunk_src) is not None:
+                snap, expect = u(chunk_src), {T}
+                kinds[snap] = _snapshot_kind(chunk_src) or ""
+            else:
+                why = f"`{u(loop.iter)[:80]}` does not cut a snapshot (list / tuple) of all of self._resamplers taken in this tick"
+        elif isinstance(it, (ast.ListComp, ast.GeneratorExp)) and len(it.generators) == 1 and not it.generators[0].ifs \
+                and isinstance(it.generators[0].target, ast.Name):
+            g0 = it.generators[0]
+            if isinstance(it, ast.ListComp) and not any(isinstance(n, (ast.Await, ast.NamedExpr)) for n in ast.walk(it)):
+                # built eagerly, without a suspension point: equal snapshot expressions denote the same series
+                for n in ast.walk(it):
+                    if _snapshot_kind(n) is not None:
+                        kinds.setdefault(u(n), _snapshot_kind(n) or "")
+            for s_ in list(kinds):
+                r = _range_over(g0.iter, s_)
+                if r is not None and u(it.elt) in _slice_texts(s_, g0.target.id, r[1]):
+                    snap, expect, size = s_, {T}, g0.iter.args[2]  # type: ignore[attr-defined]
+            if not snap:
+                why = "the batches are not the slices [i:i+n] of one snapshot of all series for i in range(0, len, n)"
+        else:
+            for s_ in kinds:
+                r = _range_over(it, s_)
+                if r is not None:
+                    snap, size = s_, it.args[2]  # type: ignore[attr-defined]
+                    expect = _slice_texts(s_, T, r[1])
+            if not snap:
+                why = (f"`{u(loop.iter)[:80]}` is not range(0, len(S), n) over a snapshot S = list(self._resamplers.values()) "
+                       "taken once in this tick (nor itertools.batched(S, n), nor a list of its slices)")
+    elif isinstance(loop, ast.While):
+        t = loop.test
+        # `kinds` holds the symbolic names; the test is written with the local
+        names = [k for k in kinds for loc in [k[4:-1]] if u(t) in (loc, f"len({loc})", f"len({loc}) > 0", f"len({loc}) != 0",
+                                                                    f"{loc} != []", f"0 < len({loc})")] if not loop.orelse else []
+        if len(names) == 1:
+            snap = names[0]
+        else:
+            why = f"`while {u(t)[:60]}` does not drain a work list that starts as a snapshot of all of self._resamplers"
+    else:
+        why = "the loop target is not a single name"
+    run.check(bool(snap), "C07.SAME", fn.qual, f"{head}: batches of one snapshot of all series",
+              f"the batched sweep of a tick is not read as a partition of all registered series: {why}.  Then some series "
+              "may get no sample for this tick (a hole of one period) or two, while the others get one - series resampled "
+              "together no longer share the timestamps", instance=inst + " cuts one snapshot of every registered series", **where0)
+    if not snap:
+        return
+    kind = kinds[snap]
+    n_g = 0
+    for p, st in sym_block(loop.body, env=env):
+        where = dict(node=loop, file=fn.file, path=p.describe() + [f"iteration ends with: {st}"])
+        handlers = [k[1] for k, *_ in p.conds if isinstance(k, tuple) and k and k[0] == "except"]
+        run.check(st in ("next", "continue"), "C07.STEP", fn.qual, f"{head}: ... {st}",
+                  f"the batched sweep of a tick is left with `{st}` on this path: the batches after this one are never "
+                  "handed this tick while `_window_end` still advances (or the tick is left before the advance), so "
+                  "their series have a hole of one period / the served ones get the timestamp again",
+                  instance=inst + " no path leaves the loop early", **where)
+        # (a write of `_window_end` inside the loop is reported by C07.STEP: advance hidden in a nested loop)
+        if handlers:
+            continue
+        gs = p.calls(_is_gather)
+        dom = _gather_domain(gs[0].node) if len(gs) == 1 else None  # type: ignore[arg-type]
+        this = set(expect)
+        if isinstance(loop, ast.While):
+            # `batch = work[:n]` ... `work = work[n:]` (or `del work[:n]`): the gathered prefix is what is dropped
+            d_txt = u(dom[0]) if dom else ""
+            pre = f"{snap}[:"
+            n_txt = d_txt[len(pre):-1] if d_txt.startswith(pre) and d_txt.endswith("]") else None
+            local = snap[4:-1]
+            dropped = u(p.env.get(local)) == f"{snap}[{n_txt}:]" or any(
+                e.kind == "del" and u(e.node) == f"{snap}[:{n_txt}]" for e in p.effects)
+            try:
+                size = ast.parse(n_txt, mode="eval").body if n_txt else None
+            except SyntaxError:
+                size = None
+            this = {d_txt} if n_txt and dropped else set()
+        ok = dom is not None and u(dom[0]) in this and dom[1] == kind and _positive_int(fn, size)
+        n_g += 1 if ok else 0
+        run.check(ok, "C07.SAME", fn.qual, f"{head}: gather(*[r.resample(self._window_end) for r in <this batch>])",
+                  "an iteration of the batched sweep does not gather exactly its own batch (the slice [i:i+n] of the "
+                  "snapshot with the loop's own positive constant step n / the chunk the loop yields) with "
+                  f"`self._window_end`; found {u(gs[0].node)[:120] if gs else 'no gather'}"
+                  f"{'' if _positive_int(fn, size) else ' (batch size is not a positive integer constant)'}: series are "
+                  "skipped or served twice in the tick, or get another timestamp than the rest",
+                  instance=inst + " every iteration gathers its batch with self._window_end", **where)
+        if gs and len(gs) == 1:
+            kw = {k.arg: k.value for k in gs[0].node.keywords}  # type: ignore[attr-defined]
+            rx = kw.get("return_exceptions")
+            run.check(isinstance(rx, ast.Constant) and rx.value is True, "C07.STEP", fn.qual,
+                      f"{head}: gather(..., return_exceptions=True)",
+                      "the gather of a batch can raise as soon as one series fails: the tick is left before the later "
+                      "batches are served and before `_window_end` advances, so the next call of resample() emits the "
+                      "same timestamp again to the series that were already served",
+                      instance=inst + " a failing series cannot make a batch raise", **where)
+    if not n_g and not run.violations:
+        raise AnalysisError(f"{fn.qual}: batched sweep at line {loop.lineno}: no iteration path gathers")
+
+
+class _TickWalker:
+    """Paths through the tick that also remember the bindings in force where each nested loop starts (loops are
+    opaque to the path walker; the batched sweep is decided on the paths of its own body from there)."""
+
+    def __init__(self, stmts: list[ast.stmt], env: dict[str, ast.AST] | None = None) -> None:
+        from ..engine.sympath import Path as SymPath, SymExec
+
+        outer = self
+        self.loop_env: dict[int, dict[str, ast.AST]] = {}
+
+        class W(SymExec):
+            def stmt(self, p: Any, s: ast.stmt) -> Any:
+                if isinstance(s, (ast.For, ast.AsyncFor, ast.While)) and not self.stack:
+                    outer.loop_env.setdefault(id(s), dict(p.env))
+                return super().stmt(p, s)
+
+        p0 = SymPath()
+        p0.env = dict(env or {})
+        self.paths = W().block(p0, list(stmts))
 
 
 def check_same(run: Run, prog: Program) -> None:
@@ -803,7 +1122,8 @@ def check_same(run: Run, prog: Program) -> None:
         raise AnalysisError(f"{fn.qual}: timer loop not found")
     n = 0
     seen_loops: set[int] = set()
-    for p, _st in sym_block(loops[0].body):
+    walker = _TickWalker(loops[0].body)
+    for p, _st in walker.paths:
         sweeps = _sweeps(p)
         gs = [e for _i, k, e in sweeps if k == "gather"]
         n += len(sweeps)
@@ -811,6 +1131,9 @@ def check_same(run: Run, prog: Program) -> None:
             if k == "loop" and id(e.orig) not in seen_loops:
                 seen_loops.add(id(e.orig))
                 _check_series_loop(run, fn, e)      # the sequential spelling: decided on the paths of its body
+            if k == "batches" and id(e.orig) not in seen_loops:
+                seen_loops.add(id(e.orig))
+                _check_batch_loop(run, fn, e, walker.loop_env.get(id(e.orig), {}))   # the batched spelling, likewise
         ok = len(sweeps) == 1 and (not gs or _gather_ok(gs[0].node))  # type: ignore[arg-type]
         run.check(ok, "C07.SAME", fn.qual, "gather(*[r.resample(self._window_end) for r in self._resamplers.values()])",
                   "not every registered series is resampled in the tick with the same self._window_end",
@@ -879,6 +1202,16 @@ def check_same(run: Run, prog: Program) -> None:
               path=bad.describe() if bad else None)
 
 
+_ONE_GATHER = ("            results = await asyncio.gather(\n"
+               "                *[r.resample(self._window_end) for r in self._resamplers.values()],\n"
+               "                return_exceptions=True,\n            )\n")
+_BATCHED = ("            series = list(self._resamplers.values())\n            results = []\n"
+            "            for start in range(0, max(len(series), 1), 64):\n"
+            "                batch = series[start : start + 64]\n"
+            "                results += await asyncio.gather(\n"
+            "                    *[r.resample(self._window_end) for r in batch], return_exceptions=True\n"
+            "                )\n")
+
 CONTROLS = [
     ("moving window substitutes its own alignment", "timeseries._moving_window", "Resampler(resampler_config)",
      "Resampler(dataclasses.replace(resampler_config, align_to=align_to))", "C07.CONF"),
@@ -895,6 +1228,18 @@ CONTROLS = [
      "            results = []\n            for r in list(self._resamplers.values()):\n                try:\n"
      "                    results.append(await r.resample(self._window_end))\n                except Exception as err:\n"
      "                    results.append(err)\n                    break\n", "C07.STEP"),
+    ("window end re-derived when the first series is added", MOD,
+     "        if source in self._resamplers:\n            return False\n",
+     "        if source in self._resamplers:\n            return False\n"
+     "        if not self._resamplers:\n            self._window_end, _ = self._calculate_window_end()\n", "C07.STEP"),
+    ("window end re-synchronised before the tick loop", MOD,
+     "        async for drift in self._timer:\n",
+     "        self._window_end = max(self._window_end, self._calculate_window_end()[0])\n"
+     "        async for drift in self._timer:\n", "C07.STEP"),
+    ("batched sweep advancing once per batch", MOD, _ONE_GATHER + "\n            self._window_end += self._config.resampling_period\n",
+     _BATCHED + "                self._window_end += self._config.resampling_period\n", "C07.STEP"),
+    ("batched sweep with mismatched slice width", MOD, _ONE_GATHER,
+     _BATCHED.replace("start : start + 64", "start : start + 32"), "C07.SAME"),
     ("de-duplication registry cleared after a failure", "microgrid._resampling",
      "        except ResamplingError as error:\n", "        except ResamplingError as error:\n            self._active_req_channels.clear()\n",
      "C07.ONCE"),
@@ -924,10 +1269,13 @@ def run_rules(run: Run, prog: Program) -> None:
 def check(run: Run, prog: Program, tier: str) -> str:
     run.rule("C07.ALIGN", "per return path: window_end ≡ align_to (mod period), now < window_end <= now + "
              "2*period, first timer tick == window_end; one clock reading per path, in UTC")
-    run.rule("C07.STEP", "_window_end written only by constructor and the per-tick `+= period`; the "
-             "advance happens exactly once per tick after the gather and before any raise/break; the gather "
+    run.rule("C07.STEP", "_window_end written only by constructor and the per-tick `+= period` (no other method, no "
+             "write of resample() outside its tick loop, no write from outside the class); the "
+             "advance happens exactly once per tick after the gather and before any raise/break, never inside a loop "
+             "nested in the tick (per series / per batch); the gather "
              "cannot raise for a failing series (return_exceptions=True); the timer triggers all missed ticks")
-    run.rule("C07.SAME", "all series of a tick get self._window_end and emit it unchanged")
+    run.rule("C07.SAME", "all series of a tick get self._window_end and emit it unchanged (one gather over all series, "
+             "its sequential spelling, or batches that partition one snapshot of all series)")
     run.rule("C07.ONE", "Resampler.resample() is started only by the actor's supervising loop and only when the "
              "previous resampling task is absent or finished; the task variable is only reset when finished")
     run.rule("C07.ONCE", "a series is handed to Resampler.add_timeseries at most once while registered: a call site "
